@@ -435,8 +435,9 @@ func decmsgWith(w, t *typeOps, pred func()) {
 	w.Fill(pm, "m")
 	rv := w.ToRef(pm)
 	encOrder = vrt.Choice("order", vrt.Param("orders"))
+	encDup = vrt.ParamOr("dup", 0)
 	msg := refEncodeStruct(w.St, rv, nil)
-	encOrder = 0
+	encOrder, encDup = 0, 0
 	trail := 0
 	if pred == nil && vrt.ParamOr("plain", 0) == 0 {
 		trail = vrt.Choice("trail", 2) * 2
@@ -570,6 +571,19 @@ func dec2Core(a, b *typeOps) {
 	ow := vrt.Bytes("overwrite", len(buf1))
 	copy(buf1, ow)
 	vrt.SetOwner("dec")
+	if fk := vrt.ParamOr("fail", 0); fk != 0 && len(msg1) > 1 {
+		// a failing call in between (truncated copy of message 1, decoded into a destination that is dropped): whatever
+		// the failed call did to pooled state must not disturb the value kept from the first call or the next result
+		cut := len(msg1) - 1
+		if fk == 2 {
+			cut = len(msg1) / 2
+		}
+		vrt.SetOwner("buf")
+		bad := append([]byte{}, msg1[:cut]...)
+		vrt.SetOwner("dec")
+		_, ef := DecodeObject(bad, a.New())
+		vrt.Check(ef != nil, "C05 a truncated message is rejected")
+	}
 	n2, e2 := DecodeObject(buf2, w2)
 	vrt.Phase("")
 	vrt.Check(e2 == nil && n2 == len(msg2), "C07 decode of message 2 after message 1 succeeds")
